@@ -34,7 +34,7 @@ type Param struct {
 // depend on how such a value is rounded.
 type QV struct {
 	Name   string `json:"name,omitempty"`   // "q" (default) or "Q"
-	Milli  int    `json:"milli"`            // 0..1000
+	Milli  int    `json:"milli"`            // 0..1000; 1001..1999: a weight above one
 	NoLead bool   `json:"nolead,omitempty"` // ".5" instead of "0.5"
 	Dot    bool   `json:"dot,omitempty"`    // keep the "." when no fractional digit follows: "1." / "0."
 	Gap    int    `json:"gap,omitempty"`    // zeros between the grid digits and Tail
@@ -84,20 +84,23 @@ func (q QV) milli() int {
 	switch {
 	case q.Milli < 0:
 		return 0
-	case q.Milli > 1000:
-		return 1000
+	case q.Milli > 1999:
+		return 1999
 	}
 	return q.Milli
 }
 
 // parts returns the integer digit and the fractional digits of the weight.
 func (q QV) parts() (ip, frac string) {
+	// Milli above 1000 spells a weight between 1 and 2 ("1.5"): outside the grammar of RFC 7231, but a number like any
+	// other for "a smaller number never outranks a larger one" (the parser reads it as that number)
 	m := q.milli()
 	ip = "0"
-	if m == 1000 {
+	if m >= 1000 {
 		ip = "1"
-	} else {
-		frac = strings.TrimRight(fmt.Sprintf("%03d", m), "0")
+	}
+	if m%1000 != 0 {
+		frac = strings.TrimRight(fmt.Sprintf("%03d", m%1000), "0")
 	}
 	if m < 1000 {
 		if tail := digitsOnly(q.Tail); tail != "" {
@@ -199,7 +202,7 @@ func (r Range) Value() string {
 func ows(s string) string {
 	var b strings.Builder
 	for i := 0; i < len(s); i++ {
-		if s[i] == ' ' || s[i] == '\t' {
+		if s[i] == ' ' || s[i] == '\t' || s[i] == '\r' || s[i] == '\n' { // CR and LF: a folded line as a hand-built header delivers it
 			b.WriteByte(s[i])
 		}
 	}
